@@ -1,5 +1,5 @@
 import JediModel.Proto
-import JediModel.Props.C01
+import JediModel.Lemmas.ValidateSpec
 import JediModel.Model.ApiHelpers
 open Lean Proto JediModel.Text JediModel.Validate JediModel.ApiHelpers
 
@@ -11,7 +11,7 @@ def outJson : Outcome → Json
 def handle (j : Json) : Json :=
   match str j "op" with
   | "validate" =>
-    outJson (validate JediModel.Props.C01.spec (splitLines (chars j "text")) (optInt j "line") (optInt j "col"))
+    outJson (validate JediModel.Validate.sourceSpec (splitLines (chars j "text")) (optInt j "line") (optInt j "col"))
   | "oncompletion" =>
     let word := (strs j "word").map String.toList |>.flatten
     let digit := (strs j "digit").map String.toList |>.flatten
